@@ -180,6 +180,10 @@ Definition run_search (moved : bool) (l : list Z) : list Z :=
   | _ => BAD
   end.
 
+(* marker: what remains of the output is A ++ B, A strictly increasing with every element in the set that follows
+   the marker, B a permutation of A (the reported indices, sorted and in callback order) *)
+Definition SUBSET : Z := -13.
+
 Definition spec_search (moved : bool) (l : list Z) : list Z :=
   match l with
   | sc :: kind :: cl :: n :: r =>
@@ -187,7 +191,7 @@ Definition spec_search (moved : bool) (l : list Z) : list Z :=
       let go ps' a b c d k :=
         let all := search_spec (mk_series cl ps') ((a, b), (c, d)) in
         if k <? 0 then Z.of_nat (length all) :: all ++ repeat WILD (length all)
-        else let m := Nat.min (Z.to_nat k) (length all) in Z.of_nat m :: repeat WILD (m + m) in
+        else let m := Nat.min (Z.to_nat k) (length all) in Z.of_nat m :: SUBSET :: all in   (* early stop: any m of them, each once *)
       match moved, rest with
       | false, [a; b; c; d; k] => go ps a b c d k
       | true, [a; b; c; d; k; dx; dy] => go (move_pts ps dx dy) a b c d k
@@ -611,9 +615,20 @@ Fixpoint zlist_eqb (a b : list Z) : bool :=
   | _, _ => false
   end.
 
+Fixpoint strictly_inc (l : list Z) : bool :=
+  match l with
+  | x :: ((y :: _) as r) => (x <? y) && strictly_inc r
+  | _ => true
+  end.
+Definition half_ok (rest set : list Z) : bool :=
+  let n := Nat.div2 (length rest) in
+  let A := firstn n rest in let B := skipn n rest in
+  (length rest =? n + n)%nat && strictly_inc A && forallb (fun x => existsb (Z.eqb x) set) A && zlist_eqb (sort_z B) A.
+
 Fixpoint zlist_match' (impl sp : list Z) : bool :=   (* spec may hold wildcards; -10 = the rest is free *)
   match impl, sp with
   | _, [-10] => true
+  | _, -13 :: set => half_ok impl set
   | [], [] => true
   | x :: a', y :: b' => ((y =? WILD) || (x =? y)) && zlist_match' a' b'
   | _, _ => false
